@@ -95,7 +95,7 @@ func genScriptCase(r *Rng, feat map[string]int) scriptCase {
 	// `with` and sloppy function-in-block are exercised in separate programs, and `with` never
 	// together with keep-names (their interactions are recorded findings, replayed from the corpus)
 	g.noWith = r.Bool() || opts.KeepNames // (inside with, only names that do not pin a nested symbol are referenced: recorded findings)
-	g.noFnInBlock = !g.noWith
+	g.noFnInBlock = false                 // (since 6412f3d a block function may be referenced inside with)
 	g.evalSibs = r.Chance(30)
 	sc.src, sc.top = g.script(r.Range(3, 7))
 	sc.opts = opts
@@ -118,19 +118,19 @@ func fixedScriptCorpus() []scriptCase {
 		{kind: "script", scenario: "regression-sibling-direct-eval-pinned-names-reserved",
 			src:  progPrelude + globalsPrelude() + "function first(code) { return eval(code); }\nfunction second(" + allLetters(", ") + ") {\n  function helper(valueArg, extraArg) { return [valueArg, extraArg, " + allLetters(", ") + "].join(); }\n  return eval(\"helper(1,2)\");\n}\n$p(\"r\", first(\"1\"), second(" + allLetters(", ", true) + "));\n",
 			opts: api.TransformOptions{Loader: api.LoaderJS, MinifyIdentifiers: true, LogLevel: api.LogLevelSilent}, optDesc: "minify-identifiers"},
-		{kind: "script", scenario: "annexb-function-in-block-shadows-parameter",
+		{kind: "script", scenario: "regression-annexb-function-in-block-shadows-parameter",
 			src:  progPrelude + globalsPrelude() + "function fn1(t) { { function t() {} } return typeof t }\n$p(\"r\", fn1(\"s\"));\n",
 			opts: api.TransformOptions{Loader: api.LoaderJS, LogLevel: api.LogLevelSilent}, optDesc: "(defaults)"},
 		{kind: "script", scenario: "annexb-function-in-block-overwrites-catch-parameter",
 			src:  progPrelude + globalsPrelude() + "try { throw \"p\"; } catch (y) { { function y() {} } $p(\"r\", typeof y); }\n",
 			opts: api.TransformOptions{Loader: api.LoaderJS, LogLevel: api.LogLevelSilent}, optDesc: "(defaults)"},
-		{kind: "script", scenario: "function-in-block-referenced-in-with-declared-twice",
+		{kind: "script", scenario: "regression-function-in-block-referenced-in-with-declared-twice",
 			src:  progPrelude + globalsPrelude() + "{\n  function r1() {}\n  with ({}) { $p(\"r\", typeof r1); }\n}\n",
 			opts: api.TransformOptions{Loader: api.LoaderJS, LogLevel: api.LogLevelSilent}, optDesc: "(defaults)"},
 		{kind: "script", scenario: "function-in-block-inside-with-redeclares-lexical",
 			src:  progPrelude + globalsPrelude() + "class y1 {}\nwith ({}) { { function y1() {} } }\n$p(\"r\", typeof y1);\n",
 			opts: api.TransformOptions{Loader: api.LoaderJS, LogLevel: api.LogLevelSilent}, optDesc: "(defaults)"},
-		{kind: "script", scenario: "strict-class-method-block-function-hoisted-as-sloppy",
+		{kind: "script", scenario: "regression-strict-class-method-block-function-hoisted-as-sloppy",
 			src:  progPrelude + globalsPrelude() + "class x1 { m() { { function t1() {} } return typeof t1; } }\n$p(\"r\", new x1().m());\n",
 			opts: api.TransformOptions{Loader: api.LoaderJS, LogLevel: api.LogLevelSilent}, optDesc: "(defaults)"},
 		{kind: "script", scenario: "regression-with-pinned-nested-name-captured-by-minified-name",
@@ -142,7 +142,7 @@ func fixedScriptCorpus() []scriptCase {
 		{kind: "script", scenario: "var-in-with-merged-with-parameter-is-renamed",
 			src:  progPrelude + globalsPrelude() + "(function (x2) { with ({ x2: 1 }) { var x2 = 2; } $p(\"r\", x2); })(\"p\");\n",
 			opts: api.TransformOptions{Loader: api.LoaderJS, LogLevel: api.LogLevelSilent}, optDesc: "(defaults)"},
-		{kind: "script", scenario: "minify-syntax-drops-var-after-hoisted-block-function",
+		{kind: "script", scenario: "regression-minify-syntax-drops-var-after-hoisted-block-function",
 			src:  progPrelude + globalsPrelude() + "{ function x1() {} }\n{ { var x1 = \"d18\"; } }\n$p(\"r\", typeof x1);\n",
 			opts: api.TransformOptions{Loader: api.LoaderJS, MinifySyntax: true, Format: api.FormatIIFE, LogLevel: api.LogLevelSilent}, optDesc: "minify-syntax format=iife"},
 		{kind: "script", scenario: "with-object-captures-minified-keep-names-helper",
